@@ -56,7 +56,7 @@ def build_gatery(flavor="plain"):
 def harness_flags(bdir, flavor="plain"):
     san = []
     if flavor == "asan":
-        san = ["-fsanitize=address,undefined", "-fno-sanitize-recover=all", "-fno-omit-frame-pointer", "-g1"]
+        san = ["-fsanitize=address,undefined", "-fno-sanitize=vptr", "-fno-sanitize-recover=all", "-fno-omit-frame-pointer", "-g1"]
     cflags = ["-std=gnu++23", "-O1", "-g0", "-w", "-fcoroutines", "-DGATERY_VERIF", "-I" + REPO + "/source",
               "-I" + bdir + "/gen", "-I" + os.path.join(VERIF, "harness"), "-DNOMINMAX", "-DBOOST_STACKTRACE_USE_BACKTRACE"] + san
     ldflags = ["-L" + bdir, "-Wl,--start-group", "-lgatery_scl", "-lgatery_core", "-Wl,--end-group",
